@@ -2,7 +2,7 @@
 
 // verif-c17: correspondence + direct oracle for the binlog-backed SQLite engine (internal/sqlite).
 //
-//	default mode   step-level: one real Engine (on-disk SQLite under /tmp/C17) driven op by op against a scripted
+//	default mode   step-level: one real Engine (SQLite files under /dev/shm/C17, or /tmp/C17 without tmpfs) driven op by op against a scripted
 //	               binlog (implements binlog.Binlog; delivers Apply/Skip/Commit exactly when the op stream says so).
 //	               After every op the committed state (RO connection, what readers see), the state inside the open
 //	               write transaction, the in-memory offset, the committed offset, the wait queue and the set of
@@ -11,7 +11,10 @@
 //	               engine and a binlog that replays the durable prefix.
 //	-mode=crash    the harness re-executes itself (-mode=child): a child runs concurrent Do/View against a real
 //	               engine + real on-disk fsbinlog and logs acknowledgements to a pipe; the parent SIGKILLs it at a
-//	               seeded instant, inspects the files, reopens the engine and evaluates the property.
+//	               seeded instant (and, in a third of the rounds, appends the prefix of one more record to the binlog: what
+//	               a kill inside write(2) leaves), inspects the files under /tmp/C17, reopens the engine and evaluates the
+//	               property. Kill instants depend on scheduling, so this mode is not byte-reproducible; the seeded parts
+//	               (workload, torn tail, graceful close between rounds) are.
 package main
 
 import (
@@ -379,6 +382,25 @@ type stepper struct {
 	broken  bool
 }
 
+// aborted is set when the real engine left a call blocked for good (the harness cannot drive it any further): the
+// observation "stuck" disagrees with the model, the remaining cases are skipped so that the run ends quickly.
+var aborted bool
+
+func abandon(e *sqlite.Engine, m *mockBinlog) {
+	done := make(chan struct{})
+	go func() {
+		e.VerifAbandon()
+		if m != nil {
+			m.RequestShutdown()
+		}
+		close(done)
+	}()
+	select {
+	case <-done:
+	case <-time.After(3 * time.Second): // a blocked call holds the RW connection: leave the engine behind
+	}
+}
+
 func eq(a, b []int) bool {
 	if len(a) != len(b) {
 		return false
@@ -616,7 +638,7 @@ func (s *stepper) opDoNow(id, ln, extra int) {
 	}()
 	var r res
 	parked := false
-	deadline := time.Now().Add(20 * time.Second)
+	deadline := time.Now().Add(10 * time.Second)
 loop:
 	for {
 		select {
@@ -637,8 +659,9 @@ loop:
 			_ = s.m.commit(s.m.length)
 		}
 		if time.Now().After(deadline) {
-			s.h.Viol("donow-stuck", "must-commit-now write neither parked nor returned within 20s")
-			s.broken = true
+			s.h.Obs("stuck")
+			s.h.Note("must-commit-now write neither returned nor was released by Commit(%d) within 10s", s.m.length)
+			s.broken, aborted = true, true
 			return
 		}
 		time.Sleep(50 * time.Microsecond)
@@ -671,9 +694,11 @@ func (s *stepper) opCommit(k int64) {
 			select {
 			case <-s.txDone:
 				s.txDone = nil
-			case <-time.After(20 * time.Second):
-				s.h.Viol("tx-commit-stuck", "the binlog announced offset %d >= engine offset, but the SQLite commit waiting for it did not finish in 20s", k)
-				s.broken = true
+			case <-time.After(10 * time.Second):
+				s.h.Obs("stuck")
+				s.h.Note("the binlog announced offset %d >= engine offset, but the SQLite commit waiting for it did not finish in 10s", k)
+				s.broken, aborted = true, true
+				return
 			}
 		} else {
 			s.graceTx()
@@ -704,9 +729,10 @@ func (s *stepper) opTx() {
 	if enabled {
 		select {
 		case <-done:
-		case <-time.After(20 * time.Second):
-			s.h.Viol("tx-commit-stuck", "timer commit did not finish although the binlog commit offset already covers the engine offset")
-			s.broken = true
+		case <-time.After(10 * time.Second):
+			s.h.Obs("stuck")
+			s.h.Note("timer commit did not finish although the binlog commit offset already covers the engine offset")
+			s.broken, aborted = true, true
 			return
 		}
 		s.dump("committed")
@@ -829,8 +855,7 @@ func (s *stepper) opCrash(d int64, p plan) {
 		}
 	}
 	if !s.closed {
-		s.e.VerifAbandon()
-		s.m.RequestShutdown()
+		abandon(s.e, s.m)
 	}
 	var keep []entry
 	for _, e := range s.m.entries {
@@ -927,15 +952,14 @@ func runStepCase(h *verifx.H, i int, r *verifx.Rng) {
 	defer os.RemoveAll(s.dir)
 	defer func() {
 		if s.e != nil && !s.closed {
-			if s.txBusy() {
+			if s.txBusy() && !s.broken {
 				_ = s.m.commit(s.m.length)
 				select {
 				case <-s.txDone:
-				case <-time.After(10 * time.Second):
+				case <-time.After(5 * time.Second):
 				}
 			}
-			s.e.VerifAbandon()
-			s.m.RequestShutdown()
+			abandon(s.e, s.m)
 		}
 	}()
 	defer func() {
@@ -1109,12 +1133,20 @@ func main() {
 		return
 	case "crash":
 		_ = os.MkdirAll(scratch, 0o755)
-		h.Cases(func(i int, r *verifx.Rng) { runCrashCase(h, i, r) })
+		h.Cases(func(i int, r *verifx.Rng) {
+			if !aborted {
+				runCrashCase(h, i, r)
+			}
+		})
 		h.Done()
 		return
 	}
 	_ = os.MkdirAll(scratch, 0o755)
-	h.Cases(func(i int, r *verifx.Rng) { runStepCase(h, i, r) })
+	h.Cases(func(i int, r *verifx.Rng) {
+		if !aborted {
+			runStepCase(h, i, r)
+		}
+	})
 	h.Done()
 }
 
@@ -1399,6 +1431,22 @@ func runCrashCase(h *verifx.H, ci int, r *verifx.Rng) {
 		if st, err := os.Stat(filepath.Join(dir, "db-journal")); err == nil && st.Size() > 0 {
 			h.Stat("kill.journal-rolled-back-on-recovery", 1)
 		}
+		if r.Chance(1, 3) {
+			// what a kill inside a large write(2) leaves behind (seen in real runs: the file ends page-aligned in the middle of
+			// a record): a proper prefix of the next record at the end of the last binlog file
+			files, _ := filepath.Glob(filepath.Join(dir, "bl.*.bin"))
+			if len(files) > 0 {
+				last := files[len(files)-1]
+				ev := evPayload(9000000+round, 12+r.Intn(3000))
+				t := r.Range(1, len(ev)-1)
+				if f, err := os.OpenFile(last, os.O_WRONLY|os.O_APPEND, 0); err == nil {
+					_, _ = f.Write(ev[:t])
+					_ = f.Close()
+					h.Stat("kill.torn-tail", 1)
+					h.NonTrivial("torn-binlog-tail")
+				}
+			}
+		}
 		entries, end, perr := parseBinlog(dir)
 		if perr != nil {
 			h.Op("binlog %d", round)
@@ -1454,11 +1502,27 @@ func runCrashCase(h *verifx.H, ci int, r *verifx.Rng) {
 			}
 		}
 		// ---- restart on the real files
-		h.Op("recover %s %d %s", verifx.List(ir), ioff, descr(entries))
+		torn := 0
+		var fileBytes int64
+		if files, _ := filepath.Glob(filepath.Join(dir, "bl.*.bin")); len(files) > 0 {
+			for _, f := range files {
+				if st, err := os.Stat(f); err == nil {
+					fileBytes += st.Size()
+				}
+			}
+			if fileBytes > end { // bytes after the last complete record: a write(2) the killed process did not finish
+				torn = 1
+			}
+		}
+		h.Op("recover %s %d %s %d", verifx.List(ir), ioff, descr(entries), torn)
 		e, err := openReal(dir, true, time.Hour)
 		if err != nil {
 			h.Obs("open-error")
-			h.Viol("restart-failed", "engine did not reopen after the kill (db offset %d, binlog end %d): %v", ioff, end, err)
+			if torn == 1 {
+				h.Viol("restart-failed-torn-tail", "engine did not reopen after a kill that left %d bytes of an unfinished write at the end of the binlog (db offset %d, last complete record ends at %d): %v", fileBytes-end, ioff, end, err)
+			} else {
+				h.Viol("restart-failed", "engine did not reopen after the kill (db offset %d, binlog end %d): %v", ioff, end, err)
+			}
 			return
 		}
 		var tr []int
@@ -1485,17 +1549,26 @@ func runCrashCase(h *verifx.H, ci int, r *verifx.Rng) {
 				break
 			}
 		}
-		// the engine must be writable again (its offset is the binlog writer's position)
+		// the engine must be writable again (its offset is the binlog writer's position) and acknowledge the write
 		wid := firstID
 		firstID += 10
 		st := &stepper{}
-		ctx, cancel := context.WithTimeout(context.Background(), 30*time.Second)
-		werr := e.Do(ctx, "w", st.callback(wid, 16, kOK))
-		cancel()
-		if werr != nil {
-			h.Viol("restart-not-writable", "first write after restart failed: %v", werr)
-		} else {
-			ackedAll[wid] = true
+		h.Op("write %d", wid)
+		wdone := make(chan error, 1)
+		go func() { wdone <- e.Do(context.Background(), "w", st.callback(wid, 16, kOK)) }()
+		select {
+		case werr := <-wdone:
+			if werr != nil {
+				h.Obs("err")
+				h.Viol("restart-not-writable", "first write after restart failed: %v", werr)
+			} else {
+				h.Obs("ok")
+				ackedAll[wid] = true
+			}
+		case <-time.After(15 * time.Second):
+			h.Obs("stuck")
+			aborted = true
+			return // the engine holds a blocked call; leave it behind
 		}
 		if r.Bool() {
 			ctx, cancel := context.WithTimeout(context.Background(), 30*time.Second)
